@@ -248,7 +248,7 @@ fn load_checks(out: &mut CaseOut, env: &lace::RunEnvironment, raw: &[u16], stack
     true
 }
 
-fn observe(env: &mut lace::RunEnvironment, input: &[u8], fuel: u64) -> RealRun {
+pub(crate) fn observe(env: &mut lace::RunEnvironment, input: &[u8], fuel: u64) -> RealRun {
     let obs = run_env(
         env,
         RunCfg {
